@@ -47,11 +47,13 @@ def run(ctx):
             for r in lc.recorders:
                 sends.setdefault(id(r.stmt), r)
             ctx.floor(f'{lc.main.short}: outcome sends', len(sends), 2)
+            st_of = {n.id: e for n, e in lc.state_sends}
             for r in sends.values():
-                a = r.call.args[0]
-                ok = isinstance(a, ast.Tuple) and len(a.elts) == 2 and is_self_attr(a.elts[1], attr)
+                a = r.call.args[0] if r.call.args else r.call
+                se = st_of.get(r.node.id)
+                ok = se is not None and is_self_attr(se, attr)
                 ctx.check('R1', f'{lc.main.short}: the {"success" if r.flag else "failure"} report carries self.{attr}', ok, lc.main.short,
-                          f'report-without-state:{"success" if r.flag else "failure"}:{norm(a.elts[1]) if isinstance(a, ast.Tuple) and len(a.elts) == 2 else norm(a)}',
+                          f'report-without-state:{"success" if r.flag else "failure"}:{norm(se) if se is not None else norm(a)}',
                           f'the {"success" if r.flag else "failure"} report of the child sends `{norm(a)}`: the last user_state assigned in the child never reaches the parent', where=loc(lc.main, r.stmt))
             gr = lc.get_result
             ctx.used(gr)
@@ -146,6 +148,15 @@ def run(ctx):
     ra_calls = [c for c in calls_in(rs.node) if last_attr(c) == '_get_restart_args' and receiver(c) == 'self']
     clears = [c for c in calls_in(rs.node) if last_attr(c) == 'clear' and '__dict__' in (receiver(c) or '')]
     ok = bool(gr_calls) and bool(ra_calls) and gr_calls[0].lineno < ra_calls[0].lineno and (not clears or ra_calls[0].lineno < clears[0].lineno)
+    if ok:
+        # must-pass-through: every path that reaches _get_restart_args() has completed a _get_result()
+        gg = ctx.an.cfg(rs, PW)
+        sync = {n.id for n in gg.nodes if n.stmt is not None and n.part == 'post' and any(c in gr_calls for c in n.calls())}
+        tgt = [n for n in gg.nodes if n.stmt is not None and n.part == 'eval' and any(c in ra_calls for c in n.calls())]
+        pth = gg.find_path([gg.entry], lambda n: n in tgt, edge_ok=is_flow, node_ok=lambda n: n.id not in sync)
+        if pth is not None:
+            ok = False
+            ctx.sample({'rule': 'C16.R3', 'path_without_sync': path_str(pth)})
     ctx.check('R3', 'restart(): _get_result() (state sync) precedes _get_restart_args(), which precedes __dict__.clear()', ok, 'PersistentWorker.restart', 'restart-order',
               'restart() collects the constructor arguments before the last user_state of the old incarnation has been fetched (or after it was cleared): '
               'the new incarnation starts from a stale state', where=loc(rs, rs.node))
